@@ -17,8 +17,14 @@ EXPLANATION = ('R12.1 general helpers == closed form for l=2..7; R12.2 degree-2 
 EXPLANATION += ' R12.8 the array twin: every interpreted call repeated with array arguments (mutable cells) returns the scalar values element for element and leaves the arguments intact.'
 
 
+EXPLANATION += ' R12.10 no integer-literal power (negative, or >= 3) is taken of a quantity that stays an integer when the arguments are integers (numba types arithmetic by its arguments: 0 for a negative power, silent int64 wrap-around for a large one).'
+TECHNIQUE += '; syntactic type flow in numba-compiled kernels (integer-literal powers of integer-typed arguments)'
+
 def run(chk):
     repo = Repo(chk.repo)
+    # R12.10: integer arguments are values like any other; numba keeps them integers until they meet a float (an integer-literal power is taken first)
+    from .common import int_power_lint
+    int_power_lint(chk, repo, 'R12.10', ['TidalPy/tides/love1d.py'])
     m = repo.by_path('TidalPy/tides/love1d.py')
     it = Interp(repo)
     mu = X.atom('mu', 'pos'); g = X.atom('g', 'pos'); R = X.atom('R', 'pos'); rho = X.atom('rho', 'pos')
